@@ -135,6 +135,29 @@ func genC01Long(r *hlib.Rng, blocks int) In {
 	return in
 }
 
+// more than 500 deposits in blocks of 3, 6, 4, 6, 5, 3, ... deposits: for every batch size P in {10, 20, 25, 32, 50, 64, 100, 128, 200,
+// 250, 256, 300, 400, 500, 512} the P-th deposit is neither the first nor the last deposit of its block (24 deposits per 5 blocks,
+// block ends at 3, 9, 13, 19, 24 mod 24), so a range query that works in batches has to resume inside a block
+func genC01Paged(r *hlib.Rng, blocks int) In {
+	h := &hist{r: r}
+	in := In{Prop: "c01"}
+	sizes := []int{3, 6, 4, 6, 5}
+	for i := 0; i < blocks; i++ {
+		h.num += uint64(1 + r.Intn(2))
+		op := Op{K: "block", Num: h.num}
+		pos := uint64(0)
+		for k := 0; k < sizes[i%len(sizes)]; k++ {
+			pos += uint64(1 + r.Intn(3))
+			h.tag++
+			op.Events = append(op.Events, genBridge(r, h.dc, pos, h.tag))
+			h.dc++
+		}
+		in.Ops = append(in.Ops, op)
+	}
+	in.Ops = append(in.Ops, snapOp())
+	return in
+}
+
 // high leaf indices and 2^k carry boundaries: a synthetic tree of n equal leaves, then real deposits n, n+1, ... across the carry
 func genC01High(r *hlib.Rng) In {
 	ns := []uint32{1, 2, 3, 7, 8, 255, 256, 1<<16 - 1, 1 << 16, 1<<24 - 2, 1<<31 - 1, 1 << 31, 1<<32 - 6, 1<<32 - 3}
@@ -483,6 +506,9 @@ func generate(prop string, f *hlib.Flags) []In {
 		for i := 0; i < nl; i++ {
 			ins = append(ins, genC01Long(r, 40))
 		}
+		// one history of more than 500 deposits in blocks of 0..6 (GetBridges over the whole range returns several hundred rows;
+		// any batching of that query by block number or row count has to cope with blocks that hold several deposits)
+		ins = append(ins, genC01Paged(r, 115))
 	}
 	return ins
 }
